@@ -210,7 +210,7 @@ _um = dict(
     enforce=['__gmpz_urandomm'], extra_sources=['mpz/realloc.c'], cbmc_flags=['--memory-leak-check'],
     functions={'__gmpz_urandomm': dict(
         inserts=[(r'\(cmp\) = \(__gmp_x > __gmp_y \? 1 : -1\);', r'g_hd = __gmp_i; \g<0>')],
-        loops={0: dict(scalars=['pow2'], havoc_targets=['np'], havoc='{ long V_d = nondet_long (); __CPROVER_assume (0 <= V_d && V_d <= size - 1); np = n->_mp_d + V_d; }',
+        loops={0: dict(scalars=['pow2'], havoc_targets=['np'], havoc='{ long V_d = nondet_long (); __CPROVER_assume (0 <= V_d && V_d <= size - 1); np = n->_mp_d + V_d; }', havoc_inv={'V_d': '(np - n->_mp_d)'},
                        inv='(np >= n->_mp_d && np <= nlast && __CPROVER_same_object (np, n->_mp_d) && nlast == n->_mp_d + (size - 1) && size >= 1 && pow2 == 1)', dec='(nlast - np)'),
                1: copy_loop(['gk', 'gj']),
                2: dict(scalars=['cmp', 'g_hd'], local_to_body=['__rstate', '__gmp_i', '__gmp_x', '__gmp_y', 'V_nd'], slices=[('rp', 'size * 8')],
